@@ -6,8 +6,10 @@ import json, os, shutil, subprocess, sys, time
 
 ID, var = sys.argv[1], sys.argv[2]
 checks = sys.argv[3:] or [ID]
-wt = f"/tmp/seed-{ID}"
-out = f"/tmp/seed-{ID}-out/{var}"
+PREFIX = os.environ.get("SEED_PREFIX", "seed")
+NAME = {"seed": {"a": "a", "b": "b"}, "seed2": {"a": "c", "b": "d"}, "seed3": {"a": "e", "b": "f"}}[PREFIX][var]
+wt = f"/tmp/{PREFIX}-{ID}"
+out = f"/tmp/{PREFIX}-{ID}-out/{var}"
 patch = f"{out}/patch.diff"
 demo_src = f"{out}/demo.rs"
 demo_name = f"seed_demo_{var}"
@@ -19,7 +21,7 @@ def sh(cmd, cwd=None):
     return p.returncode, p.stdout + p.stderr
 
 
-meta = {"property": ID, "variant": var, "ran": []}
+meta = {"property": ID, "variant": NAME, "round": PREFIX, "ran": []}
 sh("git checkout -- src", wt)
 shutil.copy(demo_src, f"{wt}/tests/{demo_name}.rs")
 rc, o = sh(f"cargo test --offline --test {demo_name}", wt)
@@ -57,7 +59,7 @@ if confirmed:
             print(c, "exit", rc, viol[:1])
     finally:
         sh("git -C /repo checkout -- .")
-    d = f"/verif/seeded/{ID}-{var}"
+    d = f"/verif/seeded/{ID}-{NAME}"
     os.makedirs(d, exist_ok=True)
     shutil.copy(patch, d + "/patch.diff")
     shutil.copy(demo_src, d + "/demo.rs")
